@@ -402,6 +402,16 @@ pub fn gen_zone(r: &mut Rng, o: ZoneOpts) -> ZoneSpec {
                 if t > prev {
                     let n = z.trans.len();
                     z.trans[n - 1].0 = t;
+                    // sometimes a leap record sits exactly on (or one second around) that last transition
+                    if t > 2_500_000 && r.chance(1, 4) {
+                        let at = t + [0i64, 0, 0, 1, -1][r.usize(5)];
+                        z.leaps.retain(|(lt, _)| *lt <= at - 2_419_199);
+                        let pc = z.leaps.last().map_or(0, |(_, c)| *c);
+                        z.leaps.push((at, if r.chance(2, 3) { pc + 1 } else { pc - 1 }));
+                        if z.version == 1 && at > i32::MAX as i64 {
+                            z.leaps.pop();
+                        }
+                    }
                 }
             }
         }
@@ -744,7 +754,8 @@ pub fn gen_c20(seed: u64) -> Scenario {
             }
         }
         if r.chance(1, 10) {
-            let e = match r.below(3) {
+            let e = match r.below(4) {
+                3 => Op::SetEnv { key: "DECOYS".into(), val: ["/d3", "/usr/share/zoneinfo", "/share/zoneinfo", "/etc/zoneinfo"][r.usize(4)].into() },
                 0 => Op::SetEnv { key: "TZDIR".into(), val: "@CORPUS/right".into() },
                 1 => Op::SetEnv { key: "TZ".into(), val: ["Asia/Tokyo", ":UTC", "EST5EDT", "junk"][r.usize(4)].into() },
                 _ => Op::SetEnv { key: "TZDIR".into(), val: "/d3".into() },
@@ -1010,7 +1021,14 @@ pub fn gen_c15(seed: u64) -> Scenario {
                     }
                 }
                 3 => Op::UnsetEnv { key: ["TZ", "TZDIR"][r.usize(2)].into() },
-                4 | 5 => Op::ClockAdvance { ns: r.range(1, 4_000_000_000_000) as i128 * if r.chance(1, 2) { 1_000_000 } else { 1 } },
+                4 => Op::ClockAdvance { ns: r.range(1, 4_000_000_000_000) as i128 * if r.chance(1, 2) { 1_000_000 } else { 1 } },
+                5 => {
+                    if r.chance(3, 4) {
+                        Op::SetEnv { key: "DECOYS".into(), val: ["/d3", "/usr/share/zoneinfo", "/share/zoneinfo", "@CORPUS/right", "/etc/zoneinfo", "1"][r.usize(6)].into() }
+                    } else {
+                        Op::UnsetEnv { key: "DECOYS".into() }
+                    }
+                }
                 6 => Op::ClockJump { to: sc.clock - r.range(1, 1_000_000_000) as i128 * 1_000_000_000 },
                 _ => Op::ClockJump { to: [-1i128, -1_000_000_001, 253_402_300_800_000_000_000, -67768100567971201i128 * 1_000_000_000, 67767976233532800i128 * 1_000_000_000, (u64::MAX as i128) * 1_000_000_000, -(u64::MAX as i128) * 1_000_000_000, 0][r.usize(8)] },
             });
